@@ -334,6 +334,15 @@ func (vc *FnVC) compInit(st *State, comp string) string {
 // refers to objects that exist at entry (references stored in it are <= the entry allocation
 // counter; boxed scalars are <= 0 by construction of the box functions).
 func (vc *FnVC) closureAxiom(comp, name string) {
+	if strings.HasPrefix(comp, "MH$") {
+		// cardinality: a map with a key is not empty (entry heap)
+		_, inner := arrayParts(vc.compSort[comp])
+		ks, _ := arrayParts(inner)
+		vc.regComp("ML", arraySort(sInt, sInt))
+		vc.enc.declConst("ML!e0", arraySort(sInt, sInt))
+		vc.enc.header = append(vc.enc.header, "(assert (forall ((r Int) (k "+ks+")) (! (=> (select (select "+name+" r) k) (> (select ML!e0 r) 0)) :pattern ((select (select "+name+" r) k)))))")
+		return
+	}
 	t := vc.compValType[comp]
 	if t == nil || comp == "alloc" {
 		return
